@@ -9,23 +9,23 @@ import (
 
 // Transaction-level constants.
 const (
-	txBase             = 21000
-	txCreate           = 32000 // EIP-2
-	txDataZero         = 4
-	txDataNonZero      = 16   // EIP-2028
-	txAccessAddr       = 2400 // EIP-2930
-	txAccessKey        = 1900 // EIP-2930
-	perEmptyAccount    = 25000 // EIP-7702 PER_EMPTY_ACCOUNT_COST
-	perAuthBase        = 12500 // EIP-7702 PER_AUTH_BASE_COST
-	floorPerToken      = 10    // EIP-7623 TOTAL_COST_FLOOR_PER_TOKEN
-	gasPerBlob         = 1 << 17
-	txMaxGas           = 1 << 24 // EIP-7825
-	maxBlobsPerTx      = 6       // EIP-7594
-	systemCallGas      = 30_000_000
-	refundQuotient     = 5 // EIP-3529
-	minBlobBaseFee     = 1
-	versionedHashKZG   = 0x01
-	setCodeMagic  byte = 0x05
+	txBase                = 21000
+	txCreate              = 32000 // EIP-2
+	txDataZero            = 4
+	txDataNonZero         = 16    // EIP-2028
+	txAccessAddr          = 2400  // EIP-2930
+	txAccessKey           = 1900  // EIP-2930
+	perEmptyAccount       = 25000 // EIP-7702 PER_EMPTY_ACCOUNT_COST
+	perAuthBase           = 12500 // EIP-7702 PER_AUTH_BASE_COST
+	floorPerToken         = 10    // EIP-7623 TOTAL_COST_FLOOR_PER_TOKEN
+	gasPerBlob            = 1 << 17
+	txMaxGas              = 1 << 24 // EIP-7825
+	maxBlobsPerTx         = 6       // EIP-7594
+	systemCallGas         = 30_000_000
+	refundQuotient        = 5 // EIP-3529
+	minBlobBaseFee        = 1
+	versionedHashKZG      = 0x01
+	setCodeMagic     byte = 0x05
 )
 
 var (
@@ -208,7 +208,7 @@ func (vm *machine) endTx() {
 }
 
 // applyTx executes an includable transaction and returns its receipt fields.
-func (vm *machine) applyTx(tx *Tx) (status bool, gasUsed uint64, logs []Log, errStr string) {
+func (vm *machine) applyTx(tx *Tx) (status bool, gasUsed, gasBeforeRefund uint64, logs []Log, errStr string) {
 	env := vm.env
 	f := env.Fork
 	intrinsic, floor := IntrinsicGas(f, tx)
@@ -256,6 +256,7 @@ func (vm *machine) applyTx(tx *Tx) (status bool, gasUsed uint64, logs []Log, err
 		st.warmA(addr)
 		if st.hasCodeOrNonceOrStorage(addr) {
 			o = outcome{err: "address collision"}
+			vm.stats.Collisions++
 		} else {
 			o = vm.createAt(&msg{caller: tx.From, self: addr, codeAddr: addr, value: new(big.Int).Set(tx.Value),
 				transfer: true, code: tx.Data, gas: gas, create: true})
@@ -274,6 +275,7 @@ func (vm *machine) applyTx(tx *Tx) (status bool, gasUsed uint64, logs []Log, err
 				m.code = vm.st.code(target)
 				m.codeAddr = target
 				m.noPrecompile = true
+				vm.stats.DelegatedRuns++
 			}
 		}
 		o = vm.call(m)
@@ -289,9 +291,14 @@ func (vm *machine) applyTx(tx *Tx) (status bool, gasUsed uint64, logs []Log, err
 	if uint64(st.refund) < refund {
 		refund = uint64(st.refund)
 	}
+	gasBeforeRefund = used
 	used -= refund
+	if refund > 0 {
+		vm.stats.RefundedTxs++
+	}
 	if floor.IsUint64() && used < floor.Uint64() {
 		used = floor.Uint64()
+		vm.stats.FlooredTxs++
 	}
 	left := tx.GasLimit - used
 	st.addBalance(tx.From, new(big.Int).Mul(bi(left), price))
@@ -305,7 +312,7 @@ func (vm *machine) applyTx(tx *Tx) (status bool, gasUsed uint64, logs []Log, err
 		st.destructed = map[Addr]bool{}
 	}
 	vm.endTx()
-	return o.ok, used, logs, o.err
+	return o.ok, used, gasBeforeRefund, logs, o.err
 }
 
 // applyAuths processes the EIP-7702 authorization list.
@@ -343,6 +350,7 @@ func (vm *machine) applyAuths(auths []Auth) {
 		}
 		acc.Nonce++
 		vm.stats.StateWrites++
+		vm.stats.DelegationsSet++
 	}
 }
 
@@ -410,10 +418,10 @@ func Apply(pre World, env *Env, txs []*Tx, host Host) *Result {
 			res.Rejected = append(res.Rejected, Rejected{Index: i, Reasons: bad})
 			continue
 		}
-		status, used, logs, errStr := vm.applyTx(tx)
+		status, used, before, logs, errStr := vm.applyTx(tx)
 		res.GasUsed += used
 		res.BlobGasUsed += uint64(len(tx.BlobHashes)) * gasPerBlob
-		res.Receipts = append(res.Receipts, Receipt{Status: status, GasUsed: used, CumGas: res.GasUsed, Logs: logs, Err: errStr})
+		res.Receipts = append(res.Receipts, Receipt{Status: status, GasUsed: used, CumGas: res.GasUsed, Logs: logs, Err: errStr, GasBeforeRefund: before})
 		allLogs = append(allLogs, logs...)
 	}
 	// EIP-4895 withdrawals
